@@ -35,6 +35,9 @@ struct Sched {
 	nframe_ev: usize,
 	dup: bool,
 	meta: bool,
+	/// the header declares raw length 0 (a replay still being recorded)
+	#[serde(default)]
+	in_progress: bool,
 }
 
 pub fn read_frag(bytes: &[u8], frag: Frag, skip: bool, hash: bool, fail_at: Option<usize>) -> (Outcome<Game>, usize, usize) {
@@ -123,8 +126,9 @@ fn check_sched(db: &LayoutDb, s: &Sched, idx: usize, seed: u64, sink: &Sink) {
 		let ver = version_for(db, reg, idx + ri, seed);
 		let mut o = GenOpts::new(seed ^ ((idx as u64) << 8) ^ ri as u64, ver);
 		o.plan = 1;
+		o.raw_len_zero = s.in_progress;
 		let built = gen::build_beh(db, &beh, &o);
-		let cls = format!("{},skip={},hash={}", shape_class(&beh), s.skip, s.hash);
+		let cls = format!("{},skip={},hash={}{}", shape_class(&beh), s.skip, s.hash, if s.in_progress { ",in_progress" } else { "" });
 		let mut viols: Vec<Viol> = vec![];
 		let data: &[u8] = if s.cut.r#where == "intact" {
 			&built.bytes
@@ -173,7 +177,8 @@ fn check_sched(db: &LayoutDb, s: &Sched, idx: usize, seed: u64, sink: &Sink) {
 								if a != b {
 									viols.push(viol("schedule_independence", &cls, "mismatch", format!("game differs under schedule {:?}", s.chunks)));
 								}
-								if !s.skip {
+								// (the writer declares the real raw length, so an in-progress file does not round-trip)
+								if !s.skip && !s.in_progress {
 									if let Some(i) = first_diff(&a, &built.bytes) {
 										viols.push(viol("schedule_independence", &cls, "mismatch", format!("fragmented read does not round-trip (byte {})", i)));
 									}
